@@ -247,7 +247,9 @@ class _CommonFile:
         records = self._records
         existing = key in records
         records[key] = value
-        if not existing:
+        if not existing and (_RECORD, key) not in self._source:
+            # NOTE: a deleted record keeps its source entry (see _iter_lines),
+            #       so only add one if the key was never present.
             self._source.append((_RECORD, key))
         return existing
 
